@@ -21,10 +21,17 @@ for d in sorted(glob.glob("seeded/*/")):
     subprocess.check_call(["git", "-C", "/repo", "apply", os.path.abspath(patch)])
     try:
         res = {}
-        for p in claimed:
+
+        def one(p):
             rr = subprocess.run(["./check", p, "--tier", "quick"], capture_output=True, text=True, env=dict(os.environ, PSV_EVIDENCE_DIR="/tmp/seedmatrix-ev"))
             rules = sorted(set(l.split(": ", 1)[1].split(" [")[0] for l in rr.stdout.splitlines() if ": " in l and " [" in l and not l.startswith(("VIOLATION", "KNOWN", p + ":"))))
-            res[p] = dict(exit=rr.returncode, rules=rules)
+            return p, dict(exit=rr.returncode, rules=rules)
+        first = meta["property"]
+        res[first] = one(first)[1]                       # also fills the extraction cache for this tree
+        from concurrent.futures import ThreadPoolExecutor
+        with ThreadPoolExecutor(8) as ex:
+            for p, v in ex.map(one, [p for p in claimed if p != first]):
+                res[p] = v
     finally:
         subprocess.check_call(["git", "-C", "/repo", "checkout", "--", "."])
     matrix[sid] = dict(property=meta["property"], applies=True, target_check_exit=res[meta["property"]]["exit"],
